@@ -16,6 +16,9 @@ pub struct Case {
     pub header: OptBytes,
     pub msgs: MsgVec,
     pub mut_seed: u32,
+    /// size sweep: edit families at sampled positions only (first, second, middle, last two, random)
+    #[serde(default)]
+    pub light: bool,
 }
 
 const COUNTS: &[usize] = &[0, 1, 2, 3, 4, 5, 6, 8, 10, 12, 17, 21, 24, 33];
@@ -29,7 +32,7 @@ fn strat(tier: Tier) -> impl Strategy<Value = Case> {
         msg_vec(tier.pick(COUNTS, COUNTS_T), MSG_LENS_SMALL),
         any::<u32>(),
     )
-        .prop_map(|(suite, key, header, msgs, mut_seed)| Case { suite, key, header, msgs, mut_seed })
+        .prop_map(|(suite, key, header, msgs, mut_seed)| Case { suite, key, header, msgs, mut_seed, light: false })
 }
 
 struct Cx<'a> {
@@ -80,7 +83,16 @@ where
     let mut st = c.mut_seed as u64 | 1 << 40;
 
     // --- message edits -------------------------------------------------------------------
-    for i in 0..l {
+    let sampled = c.light && l > 12;
+    let positions: Vec<usize> = if !sampled {
+        (0..l).collect()
+    } else {
+        let mut p = vec![0, 1, l / 2, l - 2, l - 1, (splitmix(&mut st) as usize) % l, (splitmix(&mut st) as usize) % l];
+        p.sort();
+        p.dedup();
+        p
+    };
+    for &i in &positions {
         let mut m2 = msgs.clone();
         if m2[i].is_empty() {
             m2[i].push(0);
@@ -96,7 +108,8 @@ where
         // proper prefix of length i
         cx.expect_reject("msg-prefix", v(&msgs[..i], hdr, pk), || format!("prefix {}", i))?;
     }
-    for pos in 0..=l {
+    let ins_positions: Vec<usize> = if !sampled { (0..=l).collect() } else { vec![0, 1, l / 2, l - 1, l] };
+    for &pos in &ins_positions {
         let mut rnd = vec![0u8; 9];
         fill_random(splitmix(&mut st), &mut rnd);
         let neighbour = if l == 0 { vec![7u8] } else { msgs[pos.min(l - 1)].clone() };
@@ -121,6 +134,8 @@ where
                 pairs.push((i, j));
             }
         }
+    } else if sampled {
+        pairs.extend([(0, 1), (0, l - 1), (l - 2, l - 1), (l / 2, l - 1)]);
     } else {
         for i in 0..l - 1 {
             pairs.push((i, i + 1));
@@ -193,6 +208,9 @@ where
     for bit in 0..640usize {
         if !full && bit >= 384 + 8 && bit % 5 != (c.mut_seed as usize) % 5 {
             continue; // large L: every bit of A and of the top byte of e, a fifth of the rest
+        }
+        if sampled && bit >= 384 + 8 && bit % 15 != (c.mut_seed as usize) % 15 {
+            continue;
         }
         let mut b2 = sb;
         b2[bit / 8] ^= 1 << (bit % 8);
@@ -297,15 +315,41 @@ fn fixed_cases(seed: u64) -> Vec<Case> {
                 header: [OptBytes::None, OptBytes::Empty, OptBytes::Bytes(BSpec { len: 16, class: 0, seed: 5 })][k % 3].clone(),
                 msgs: MsgVec { items },
                 mut_seed: splitmix(&mut st) as u32,
+                light: false,
             });
         }
     }
     out
 }
 
+/// every message count in a contiguous range, light catalogue: "magic size" defects (fast paths,
+/// buffers, caches that switch at a particular count) sit at sizes no edge list anticipates
+fn sweep_cases(seed: u64, counts: impl Iterator<Item = usize>) -> Vec<Case> {
+    let mut st = seed ^ 0x5EE9;
+    counts
+        .enumerate()
+        .map(|(k, l)| Case {
+            suite: if (k + seed as usize) % 2 == 0 { SuiteId::Sha256 } else { SuiteId::Shake256 },
+            key: KeySpec { fixture: false, ikm: BSpec { len: 32, class: 0, seed: splitmix(&mut st) as u32 }, key_info: OptBytes::None, key_dst: OptBytes::None },
+            header: [OptBytes::Bytes(BSpec { len: 16, class: 0, seed: 5 }), OptBytes::None, OptBytes::Empty][k % 3].clone(),
+            msgs: MsgVec { items: (0..l).map(|j| BSpec { len: [3usize, 32, 0, 7][j % 4], class: 0, seed: splitmix(&mut st) as u32 }).collect() },
+            mut_seed: splitmix(&mut st) as u32,
+            light: true,
+        })
+        .collect()
+}
+
 pub fn run(ctx: &Ctx, rep: &Report) -> Meta {
     let fx = fixed_cases(ctx.seed);
     par_items(ctx, rep, "fixed-shapes", &fx, |c| check(rep, "fixed-shapes", c));
+    let sweep: Vec<Case> = match ctx.tier {
+        Tier::Quick => sweep_cases(ctx.seed, (13..=72).chain([127, 128, 129, 255, 256, 257])),
+        Tier::Thorough => sweep_cases(ctx.seed, (13..=300).chain([511, 512, 513, 1000])),
+    };
+    par_items(ctx, rep, "size-sweep", &sweep, |c| check(rep, "size-sweep", c));
+    if !rep.aborted() {
+        rep.exhaustive(format!("every message count L in {} with the sampled-position catalogue", ctx.tier.pick("13..=72 and {127..129, 255..257}", "13..=300 and {511..513, 1000}")));
+    }
     let tier = ctx.tier;
     run_cases(ctx, rep, "mutations", ctx.tier.pick(96, 1200), 200, || strat(tier), |c| check(rep, "mutations", c));
     Meta {
@@ -316,7 +360,7 @@ pub fn run(ctx: &Ctx, rep: &Report) -> Meta {
             .into(),
         assumptions: vec![
             "accidental acceptance of a changed statement would need a hash collision (2^-128)".into(),
-            "shapes beyond the fixtures' 16-entry vectors are forced: L in {17, 21, 24, 33} in every run".into(),
+            "shapes beyond the fixtures' 16-entry vectors are forced: L in {17, 21, 24, 33} with the full catalogue and every L in 13..=72 (quick) / 13..=300 (thorough) plus powers of two +-1 with the catalogue at sampled positions (first, second, middle, last two, random)".into(),
         ],
     }
 }
